@@ -199,7 +199,11 @@ def generate(repo):
     L.append("]")
     L.append("")
     L.append("end RV.Gen.C08")
-    return "\n".join(L) + "\n", dict(enum=enum, table=table, problems=problems, kinds=kinds, lineno=lineno)
+    rc = _strip(open(os.path.join(repo, "src", "rebound.c")).read())
+    raw = _func_body(rc, "reb_simulation_integrate_raw") or ""
+    # fixes/C08-absorbed-step-error.diff: after reb_simulation_step, `r->t==t_before_step && r->dt==dt_before_step` -> GENERIC_ERROR
+    has_guard = bool(re.search(r"reb_simulation_step\(r\);\s*if\s*\([^)]*r->t\s*==\s*\w+[^)]*r->dt\s*==\s*\w+", raw))
+    return "\n".join(L) + "\n", dict(enum=enum, table=table, problems=problems, kinds=kinds, lineno=lineno, has_progress_guard=has_guard)
 
 
 if __name__ == "__main__":
